@@ -175,7 +175,10 @@ class Registry(OperatorDict):
                 mv = mv()
             mvs[i] = mv
 
-        if all(isinstance(mv, TapeRecorder) for mv in mvs):
+        if any(isinstance(mv, TapeRecorder) for mv in mvs):
+            # Being recorded: an input that is not a recorder is assumed to be a scalar, as it is below.
+            mvs = [mv if isinstance(mv, TapeRecorder) else TapeRecorder(self.algebra, expr=f'({mv},)', keys=(0,))
+                   for mv in mvs]
             keys_in = tuple(mv.keys() for mv in mvs)
             keys_out, func = self[keys_in]
             expr = f"{func.__name__}({', '.join(mv.expr for mv in mvs)})"
